@@ -1,9 +1,9 @@
 #!/bin/bash
 # import_seed.sh <id> <k> : copy a confirmed seeded change into /verif/seeded/<id>-<k>/
-id=$1; k=$2; src=/tmp/wt/$id/_seed; dst=/verif/seeded/$id-$k
+id=$1; k=$2; src=${WTBASE:-/tmp/wt}/$id/_seed; dst=/verif/seeded/$id-${K2:-$k}
 mkdir -p $dst
 cp $src/patch$k.diff $dst/patch.diff
-sed "s#/tmp/wt/$id#/repo#g" $src/demo$k.py > $dst/demo.py
+sed "s#${WTBASE:-/tmp/wt}/$id#/repo#g" $src/demo$k.py > $dst/demo.py
 /venv/bin/python - "$src/meta$k.json" "$dst/meta.json" "$id" <<'P'
 import json,sys
 m=json.load(open(sys.argv[1]))
